@@ -252,7 +252,9 @@ def o3(W, ob):
         ob.fail('builder|open-panic-site|%s|%s|%s' % k, 'open panic-capable site reachable from the SessionBuilder: %s in %s (%s) -- %s' % (k[1], k[0], k[2], why[:200]), panics.where_(s))
 
 
-from . import helpers, wiring, confpanics
+from . import helpers, wiring, confpanics, c12
+
+from . import removals
 
 OBLIGATIONS = [
     ('C16.O1', 'documented constraint <-> guard', 'fps != 0; 1 <= max_frames_behind < SPECTATOR_BUFFER_SIZE; catchup_speed >= 1; num_players != 0 with revalidation against the new value; '
@@ -261,8 +263,10 @@ OBLIGATIONS = [
     ('C16.O1c', 'synctest boundary (= C13.O1)', 'see C13.O1', c13.o1),
     ('C16.O2', 'runtime misuse leaves the session unchanged', 'no error exit of the P2PSession API functions is reachable after an effect on the session; the documented error cases exist.', o2),
     ('C16.O2b', 'set_input_delay guards (= C11.O3)', 'see C11.O3', c11.o3),
+    ('C16.O2c', 'advancing before synchronisation is refused (= C12.O4)', 'advance_frame returns NotSynchronized until check_initial_sync has seen every remote AND every spectator endpoint synchronised; see C12.O4', c12.o4),
     ('C16.O3', 'the builder cannot panic', 'panic-capable sites in the call-graph closure of the SessionBuilder methods are discharged by analysis or reviewed for arguments in the claimed range.', o3),
     ('C16.O4', 'no configuration-determined panic in a running session', 'every division / remainder in the crate has a divisor shown non-zero (constant, guard, fixed array, or a configuration invariant the builder establishes); every panicking Duration/Instant subtraction is ordered by a dominating comparison; every overflow-checked unsigned subtraction over configuration values only is guarded. Configuration fields are computed (never written after construction); see rules/confpanics.py', confpanics.rule),
     ('C16.H', 'helpers the rules above rely on', 'the bodies of the helpers named by this property\'s rules compute what the rules assume (get_cell, registry_counts); see rules/helpers.py', helpers.bundle('get_cell', 'registry_counts')),
     ('C16.W', 'configuration wiring', 'at every call site that passes a field read `x.B` for a parameter `A` the callee has no same-typed parameter `B`; in every struct literal no parameter `B` is stored in field `A` while a same-typed parameter `A` / field `B` exists (builder -> constructor -> endpoint fields: timeouts, window, fps are not crossed); see rules/wiring.py', wiring.rule),
+    ('C16.R', 'who may remove', 'every call that takes elements out of a collection this property\'s rules rely on (keyed removal from a map, or bulk / positional removal) is one of the reviewed sites in tables/removals.json; a lookup turned into a removal, a second prune, a clear on another path is reported; see rules/removals.py', removals.rule_for('C16')),
 ]
